@@ -237,7 +237,7 @@ def rand_weight(rng, kind, signed):
 def rand_cfg(rng, tier):
     nh = rng.choice(NH_CHOICES)
     nb = rng.choice(NB_CHOICES)
-    if nh * nb > 20000 and rng.random() < (0.8 if tier == "quick" else 0.5):     # keep the big shapes rare
+    if nh * nb > 20000 and rng.random() < 0.5:     # keep the big shapes rare
         nh = rng.choice([1, 2, 3, 5, 8])
     seed = rng.choice([9001, 9001, 0, 1, 2147483647, 2**64 - 1, rng.randrange(2**64), rng.randrange(2**32)])
     return nh, nb, seed
@@ -432,7 +432,7 @@ class C14(Spec):
 
     # ---- generators
     def _builders(self, rng, tier):
-        n = 110 if tier == "quick" else 900
+        n = 220 if tier == "quick" else 2500
         hs = [hist_ctor_wrap_witness()]
         for i in range(n):
             r = rng.random()
